@@ -10,7 +10,10 @@ uses a real network; the only real OS object is the (unconnected) descriptor a
 import errno
 import heapq
 import io
+import os
 import socket
+
+_HARNESS_ROOT = os.path.realpath(os.path.dirname(os.path.dirname(os.path.abspath(__file__))))
 
 
 class LivenessViolation(BaseException):
@@ -152,6 +155,7 @@ class Pipe:
     def reset(self, who="link"):
         if self.err is None:
             self.err = ConnectionResetError(errno.ECONNRESET, "simulated connection reset by peer")
+            self.err.sim_injected = True
             self.world.ev(who, "rst", self.delivered)
 
 
@@ -183,20 +187,29 @@ class SimSocket(socket.socket):
         self.recv_calls += 1
         if bufsize is None or bufsize < 0:
             raise ValueError("negative buffersize in recv")
+        peek = bool(flags & socket.MSG_PEEK)
+        waitall = bool(flags & socket.MSG_WAITALL)
+        if flags & ~(socket.MSG_PEEK | socket.MSG_WAITALL):
+            raise HarnessBug(f"SimSocket.recv(flags={flags:#x}) is not simulated")
         deadline = None
         if self._sim_timeout is not None:
             deadline = w.now + int(self._sim_timeout * 1e9)
         while True:
-            if p.buf:
+            if p.buf and not (waitall and len(p.buf) < bufsize and not p.fin and p.err is None
+                              and (w.next_time() is not None) and (deadline is None or w.next_time() <= deadline)):
                 avail = min(len(p.buf), bufsize)
                 if avail == 0:
                     w.ev(self._name, "recv", 0)
                     return b""
-                n = avail if self._take is None else _guard(self._take, avail)
+                n = avail if (self._take is None or waitall) else _guard(self._take, avail)
                 out = bytes(p.buf[:n])
-                del p.buf[:n]
-                w.ev(self._name, "recv", n)
+                if not peek:
+                    del p.buf[:n]
+                w.ev(self._name, "recv_peek" if peek else "recv", n)
                 return out
+            if p.buf:
+                w.step()            # MSG_WAITALL: keep waiting for the rest while something can still arrive
+                continue
             if p.err is not None:
                 w.ev(self._name, "recv_err", type(p.err).__name__)
                 self.raised = p.err
@@ -215,6 +228,7 @@ class SimSocket(socket.socket):
                     w.now = max(w.now, deadline)
                     w.ev(self._name, "recv_timeout")
                     self.raised = TimeoutError("timed out")
+                    self.raised.sim_injected = True
                     raise self.raised
                 w.ev(self._name, "deadlock")
                 raise SimDeadlock("recv() blocked with no pending event")
@@ -222,6 +236,7 @@ class SimSocket(socket.socket):
                 w.now = max(w.now, deadline)
                 w.ev(self._name, "recv_timeout")
                 self.raised = TimeoutError("timed out")
+                self.raised.sim_injected = True
                 raise self.raised
             w.step()
 
@@ -330,6 +345,7 @@ class SimRaw(io.RawIOBase):
         if self._fail_at is not None and idx == self._fail_at:
             self._w.ev(self._name, "eio", idx)
             self.raised = OSError(errno.EIO, "simulated I/O error")
+            self.raised.sim_injected = True
             raise self.raised
         possible = min(len(b), len(self._data) - self._pos)
         if possible <= 0:
@@ -395,18 +411,42 @@ class SimClock:
         return getattr(_real_time, name)
 
 
-class NullOut:
-    """stdout stand-in while the library prints its progress bar."""
+class NullOut(io.TextIOWrapper):
+    """stdout stand-in while the library prints its progress bar: a real text stream (complete file API: isatty(),
+    encoding, buffer, fileno() raising like any in-memory stream ...) over a sink that discards everything."""
+
+    class _Sink(io.RawIOBase):
+        def writable(self):
+            return True
+
+        def write(self, b):
+            return len(b)
 
     def __init__(self):
-        self.n = 0
+        super().__init__(io.BufferedWriter(NullOut._Sink()), encoding="utf-8", errors="replace", write_through=True)
 
-    def write(self, s):
-        self.n += len(s)
-        return len(s)
 
-    def flush(self):
-        pass
+def raised_in_harness(exc) -> bool:
+    """True if the innermost frame of the exception's traceback is harness code (/verif), i.e. the exception was raised
+    BY a simulator stub or a check, not by the library or by Python on the library's behalf."""
+    import os as _os
+    if getattr(exc, "sim_injected", False):
+        return False                  # a fault the simulator injected on purpose (EIO, connection reset, timeout)
+    tb = exc.__traceback__
+    if tb is None:
+        return False
+    while tb.tb_next is not None:
+        tb = tb.tb_next
+    fn = _os.path.realpath(tb.tb_frame.f_code.co_filename)
+    return fn.startswith(_HARNESS_ROOT + _os.sep)
+
+
+def library_exception(exc):
+    """Called by the checks on every exception that came out of a library call: an exception raised by harness code
+    (a stub lacking an attribute, a bug in a callback) must never be reported as the library's."""
+    if raised_in_harness(exc):
+        raise HarnessBug(f"{type(exc).__name__}: {exc} raised inside harness code while the library was calling it") from exc
+    return exc
 
 
 class ClockSeam:
